@@ -181,15 +181,40 @@ func (s *vC07Stub) ServeDNS(ctx context.Context, ch *middleware.Chain) {
 
 // the Queryer the cache re-resolves alias targets through: answers every name
 // with one marked record of the asked type
+type vC07Sub struct {
+	err    bool
+	rcode  int
+	answer []vC07RRSpec
+	hasNs  bool
+}
+
 type vC07Queryer struct {
 	mu    sync.Mutex
 	asked []string
+	world map[string]vC07Sub // when set: the namespace sub-queries are answered from (exact name)
 }
 
 func (q *vC07Queryer) Query(ctx context.Context, req *dns.Msg) (*dns.Msg, error) {
 	q.mu.Lock()
 	q.asked = append(q.asked, req.Question[0].Name)
+	world := q.world
 	q.mu.Unlock()
+	if world != nil {
+		sub, ok := world[req.Question[0].Name]
+		if !ok || sub.err {
+			return nil, middleware.ErrNoResponse
+		}
+		m := new(dns.Msg)
+		m.SetReply(req)
+		m.Rcode = sub.rcode
+		for _, sp := range sub.answer {
+			m.Answer = append(m.Answer, sp.rr())
+		}
+		if sub.hasNs {
+			m.Ns = []dns.RR{&dns.SOA{Hdr: dns.RR_Header{Name: "net.", Rrtype: dns.TypeSOA, Class: dns.ClassINET, Ttl: 60}, Ns: "ns.", Mbox: "h.", Serial: 1, Refresh: 1, Retry: 1, Expire: 1, Minttl: 1}}
+		}
+		return m, nil
+	}
 	m := new(dns.Msg)
 	m.SetReply(req)
 	h := dns.RR_Header{Name: req.Question[0].Name, Rrtype: req.Question[0].Qtype, Class: dns.ClassINET, Ttl: 300}
@@ -459,6 +484,174 @@ func TestVerifC07Cache(t *testing.T) {
 			"desc": map[string]any{"q": q.Name, "qtype": dns.TypeToString[qtype], "upstream_answer": descAns, "entry": vC07Idents(stored.Answer), "second_reply_rcode": r2.Rcode, "second_reply": vC07Idents(r2.Answer), "kept_idx": kept2},
 		})
 	}
+
+	// --- Cache.additionalAnswer in full: alias chains against a scripted namespace -------------
+	nChase := n / 3
+	for i := 0; i < nChase; i++ {
+		base := bases[r.Intn(len(bases))]
+		qn := append(vC07Name{fmt.Sprintf("h%d", i)}, base...)
+		qtype := []uint16{dns.TypeA, dns.TypeA, dns.TypeA, dns.TypeTXT, dns.TypeCNAME}[r.Intn(5)]
+		q := dns.Question{Name: qn.String(), Qtype: qtype, Qclass: dns.ClassINET}
+		tname := func(j int) vC07Name { return vC07Name{fmt.Sprintf("t%d", j), fmt.Sprintf("h%d", i), "target", "net"} }
+		// the namespace: a chain of targets t0 -> t1 -> ... with a random ending
+		chainLen := r.Intn(5)
+		if r.Intn(6) == 0 {
+			chainLen = 8 + r.Intn(6) // around and beyond the depth limit of 10
+		}
+		world := map[string]vC07Sub{}
+		var worldOrder []vC07Name
+		term := func(owner vC07Name, j int) vC07RRSpec {
+			sp := vC07RRSpec{owner: owner, rrtype: qtype, ttl: 300, tag: uint16(100 + j)}
+			if qtype == dns.TypeA {
+				sp.ip = []byte{198, 18, byte(i), byte(j)}
+			} else {
+				sp.rrtype = dns.TypeTXT
+			}
+			return sp
+		}
+		for j := 0; j <= chainLen; j++ {
+			var sub vC07Sub
+			if j < chainLen {
+				next := tname(j + 1)
+				switch r.Intn(14) {
+				case 0:
+					next = append(vC07Name{}, qn...) // back to the question
+				case 1:
+					next = tname(r.Intn(j + 1)) // back to an earlier target
+				case 2:
+					next = vC07CaseMix(r, qn)
+				}
+				sub.answer = []vC07RRSpec{{owner: tname(j), rrtype: dns.TypeCNAME, ttl: 300, target: next}}
+				if r.Intn(8) == 0 { // the hop already carries the final record
+					sub.answer = append(sub.answer, term(next, j))
+				}
+				if r.Intn(10) == 0 { // two aliases in one sub-response: the last one is followed
+					sub.answer = append(sub.answer, vC07RRSpec{owner: next, rrtype: dns.TypeCNAME, ttl: 300, target: tname(j + 2)})
+				}
+			} else {
+				switch r.Intn(8) {
+				case 0:
+					sub.rcode = dns.RcodeNameError
+					sub.hasNs = true
+				case 1:
+					sub.hasNs = true // NODATA with SOA
+				case 2:
+					// empty NOERROR
+				case 3:
+					sub.err = true
+				case 4:
+					sub.rcode = dns.RcodeNameError
+					sub.answer = []vC07RRSpec{{owner: tname(j), rrtype: dns.TypeCNAME, ttl: 300, target: tname(j + 1)}}
+				default:
+					sub.answer = []vC07RRSpec{term(tname(j), j)}
+				}
+			}
+			world[tname(j).String()] = sub
+			worldOrder = append(worldOrder, tname(j))
+		}
+		// upstream answer: alias(es) from the question into the chain, sometimes with other records
+		var ans []vC07RRSpec
+		switch r.Intn(8) {
+		case 0:
+			ans = []vC07RRSpec{term(qn, 99)}
+		case 1:
+			ans = []vC07RRSpec{{owner: qn, rrtype: dns.TypeCNAME, ttl: 300, target: tname(0)}, term(tname(0), 98)}
+		case 2:
+			ans = []vC07RRSpec{{owner: qn, rrtype: dns.TypeCNAME, ttl: 300, target: tname(1)}, {owner: qn, rrtype: dns.TypeCNAME, ttl: 300, target: tname(0)}}
+		case 3:
+			ans = []vC07RRSpec{{owner: qn, rrtype: dns.TypeRRSIG, ttl: 300, covered: dns.TypeCNAME, tag: 7}, {owner: qn, rrtype: dns.TypeCNAME, ttl: 300, target: tname(0)}}
+		default:
+			ans = []vC07RRSpec{{owner: qn, rrtype: dns.TypeCNAME, ttl: 300, target: tname(0)}}
+		}
+		rcode0 := dns.RcodeSuccess
+		if r.Intn(10) == 0 {
+			rcode0 = dns.RcodeNameError
+		}
+		var rrs []dns.RR
+		for _, sp := range ans {
+			rrs = append(rrs, sp.rr())
+		}
+		stub.mu.Lock()
+		stub.resp = &dns.Msg{Answer: rrs}
+		stub.resp.Rcode = rcode0
+		stub.calls = 0
+		stub.mu.Unlock()
+		qy.mu.Lock()
+		qy.world = world
+		qy.asked = nil
+		qy.mu.Unlock()
+		rep := ask(q)
+		asked := qy.take()
+		qy.mu.Lock()
+		qy.world = nil
+		qy.mu.Unlock()
+		if rep == nil {
+			continue
+		}
+		var oparts []string
+		for _, tn := range worldOrder {
+			sub := world[tn.String()]
+			if sub.err {
+				oparts = append(oparts, fmt.Sprintf("(%s, SubErr)", tn.coq()))
+			} else {
+				oparts = append(oparts, fmt.Sprintf("(%s, SubResp %d %s %v)", tn.coq(), sub.rcode, vC07CoqSpecs(sub.answer), sub.hasNs))
+			}
+		}
+		var obs []vC07RRSpec
+		for _, rr := range rep.Answer {
+			obs = append(obs, vC07FromRR(rr))
+		}
+		// Go-side ground truth: what the reply carries beyond the upstream answer was returned by a sub-query
+		goFail := ""
+		up := map[string]bool{}
+		for _, rr := range rrs {
+			up[vC07Ident(rr)] = true
+		}
+		fromWorld := map[string]bool{}
+		for _, nm := range asked {
+			for _, sp := range world[nm].answer {
+				fromWorld[vC07Ident(sp.rr())] = true
+			}
+		}
+		for _, rr := range rep.Answer {
+			if id := vC07Ident(rr); !up[id] && !fromWorld[id] {
+				goFail = "reply carries a record that neither the upstream answer nor a sub-query supplied: " + id
+			}
+		}
+		emit(map[string]any{
+			"k": fmt.Sprintf("chase-%s-len%d-rc%d", dns.TypeToString[qtype], len(asked), rep.Rcode),
+			"coq": fmt.Sprintf("CaseChase (mk_q %s %d 1) %d %s [%s] %d %s", qn.coq(), qtype, rcode0, vC07CoqSpecs(ans), strings.Join(oparts, ";"),
+				rep.Rcode, vC07CoqSpecs(obs)),
+			"nontrivial": len(asked) > 0, "go_fail": goFail,
+			"desc": map[string]any{"q": q.Name, "qtype": dns.TypeToString[qtype], "upstream_rcode": rcode0, "upstream_answer": vC07Idents(rrs),
+				"subqueries": asked, "reply_rcode": rep.Rcode, "reply_answer": vC07Idents(rep.Answer)},
+		})
+	}
+}
+
+// vC07FromRR describes a reply record as the model sees it (TTL is ignored by the comparison)
+func vC07FromRR(rr dns.RR) vC07RRSpec {
+	h := rr.Header()
+	sp := vC07RRSpec{owner: vC07ParseName(h.Name), rrtype: h.Rrtype, ttl: h.Ttl}
+	switch v := rr.(type) {
+	case *dns.A:
+		sp.ip = []byte(v.A.To4())
+	case *dns.CNAME:
+		sp.target = vC07ParseName(v.Target)
+	case *dns.DNAME:
+		sp.target = vC07ParseName(v.Target)
+	case *dns.RRSIG:
+		sp.covered = v.TypeCovered
+	}
+	return sp
+}
+
+func vC07CoqSpecs(l []vC07RRSpec) string {
+	var parts []string
+	for _, sp := range l {
+		parts = append(parts, sp.coq())
+	}
+	return "[" + strings.Join(parts, ";") + "]"
 }
 
 func vC07Idents(rrs []dns.RR) []string {
